@@ -20,7 +20,7 @@ RULE = (
     "of declaration lines equals one per member with the title/type of the nearest configured class; the "
     "multiset of relation lines between two member titles equals one per internal link as `title(v1) "
     "<v1side>--<v2side> title(v2)` with the options of the link's nearest configured class; every other relation "
-    "line corresponds to an existing link of a member; empty universe => None.  Every case renders twice: after the first rendering the vertices' title attributes are changed, one member leaves (from the vertex side) and one joins, and the second rendering - with the same option-table object or with another table in which nearer ancestors are (un)configured, optionally after a rendering that failed - must show the new state.  A few worlds are scaled up: a member with 70 / 300 links (leaves members or not) and universes whose first 258 / 300 members are isolated fillers.  Title formats may name a class-level constant of the vertex class; declarations may show an attribute that refers to another vertex (a ring of peers); Universe(vertices=) may be given a vertex twice; universe-vertices may contain other vertices.  Non-trivial = >= 2 internal links "
+    "line corresponds to an existing link of a member; empty universe => None.  Every case renders twice: after the first rendering the vertices' title attributes are changed, one member leaves (from the vertex side) and one joins, and the second rendering - with the same option-table object or with another table in which nearer ancestors are (un)configured, optionally after a rendering that failed - must show the new state.  Attribute lines of a declaration (format-agnostic `name = value`): every instance attribute selected by the nearest class's show_attrs is shown (the value of `i` is compared), nothing is shown that show_attrs does not select; also rendered with the library's own default option table (worlds with directed / undirected links only).  A few worlds are scaled up: a member with 70 / 300 links (leaves members or not) and universes whose first 258 / 300 members are isolated fillers.  Title formats may name a class-level constant of the vertex class; declarations may show an attribute that refers to another vertex (a ring of peers); Universe(vertices=) may be given a vertex twice; universe-vertices may contain other vertices.  Non-trivial = >= 2 internal links "
     "of different classes, or an internal self-loop, or a class resolved through the MRO; distinct = distinct case value."
 )
 ASSUMPTIONS = [
@@ -85,6 +85,21 @@ def DEFAULT_TABLE():
         DirectedEdge: {"v1side": "", "v2side": ">"},
         UnDirectedEdge: {"v1side": "", "v2side": ""},
     }
+
+
+def SHOW_ATTRS(cls, flags, opt):
+    """The show_attrs patterns configured for `cls` in the table make_options(opt, ..) builds (or the default table)."""
+    from edgegraph.structure import Vertex
+    from eglib import classes as C
+
+    if flags.get("default_table"):
+        return [".+"]
+    px = ["^peer$"] if flags["peers"] else []
+    if cls is Vertex:
+        return ((["^i$"] if not flags["idtitles"] else ["^i$", "^zz"]) if not flags["id_attr"] else ["^id$", "^i$"]) + px
+    if cls is C.SubVertex:
+        return ["^i$"] + (["^kind$"] if flags["class_attr"] else []) + px
+    return ["^i$"]
 
 
 def nearest(cls, options):
@@ -216,6 +231,36 @@ def _check_render(case, vs, ls, u, opt, keep):
     got_decl = collections.Counter(decl)
     if got_decl != exp_decl:
         raise Violation("declarations-mismatch", f"missing {dict(exp_decl - got_decl)}, unexpected {dict(got_decl - exp_decl)}")
+    # ---- attribute lines: "show_attrs: regular expressions; if any match an instance attribute's name, that
+    #      attribute (name and value) are included" - format-agnostic: a body line is <name> = <value>
+    if not flags["urf"]:
+        bodies = collections.defaultdict(list)
+        cur = None
+        for l in lines:
+            if re.match(r"^(object|class) \S+ <<\w+>> \{$", l):
+                cur = []
+                bodies[l].append(cur)
+            elif l == "}":
+                cur = None
+            elif cur is not None:
+                m = re.match(r"^\s*(?:\{field\}\s*)?([A-Za-z_][\w.]*)\s*=\s?(.*)$", l)
+                if m:
+                    cur.append((m.group(1), m.group(2)))
+        for v in members:
+            pats = SHOW_ATTRS(nearest(type(v), ref_options)[0], flags, opt)
+            sel = lambda a: any(re.match(p, a) for p in pats)
+            must = {a for a in vars(v) if not a.startswith("_") and sel(a)}
+            may = {a for a in dir(v) if sel(a)}
+            hdr = f"{vtype(v)} {title(v)} <<{type(v).__name__}>> {{"
+            ok = False
+            for body in bodies.get(hdr, []):
+                names = {a for a, _ in body}
+                vals = dict(body)
+                if must <= names <= (must | may) and ("i" not in must or vals.get("i") == str(v.i)):
+                    ok = True
+                    break
+            if not ok:
+                raise Violation("attribute-lines-mismatch", f"declaration {hdr!r}: show_attrs {pats} selects the instance attributes {sorted(must)} (i = {getattr(v, 'i', None)!r}); bodies found: {[sorted(b) for b in bodies.get(hdr, [])][:2]}")
     # ---- relations
     rel = [l for l in lines if re.match(r"^\S+ [^\s-]*--[^\s-]* \S+$", l)]
 
